@@ -82,6 +82,8 @@ def gen(c):
                 rinfo = [(r, -1 if i == 0 else nb - 30) for r in [0, 1, 2, 3, 4, 5, 6, 8, 9, 10, -1]]
             o = dict(kind=kind, serial=rng.choice(serials), nb=nb, nbs=rng.choice([0, 1, 86399]), na=na, nas=rng.choice([0, 86399]), cn=cn, cntag=tag, org=rng.choice(["-", "4f7267", "e585ace58fb8"]),
                      icn="526f6f74", icntag=12, iorg="-", exts=",".join(exts) or "-", sid=sid, revoked=",".join("%s:%d:%d" % (x.hex(), r, iv) for x, (r, iv) in zip(revoked, rinfo)) or "-", seed=100 + i)
+            if kind == "crl" and i % 3 == 2:
+                o["nonext"] = 1        # nextUpdate is OPTIONAL: a CRL issued without it parses back as "absent" (-1), with or without revoked entries / extensions after it
             if kind == "cert" and i % 4 == 3:
                 o["self"] = 1          # a self-signed certificate (subject = issuer, certified key = issuing key): it is its own issuer certificate
             add(**o)
@@ -100,6 +102,11 @@ def gen(c):
             o = dict(kind=kind, serial=serials[i % len(serials)], nb=20000, nbs=0, na=20300, nas=0, cn="41" * 60, cntag=12, org="4f" * olen, icn="526f6f74", icntag=12, iorg="-", exts="ku_sign!", sid=b"", revoked="-", seed=800 + i, light=1)
             add(**o)
             objs.append((o, [], []))
+    # a validity period of a single second (notBefore = notAfter; the period is inclusive on both ends) and of two
+    for k, (nas_, what) in enumerate(((0, "equal"), (1, "one-second"))):
+        o = dict(kind="cert", serial=serials[k], nb=20000, nbs=0, na=20000, nas=nas_, cn="414c494345", cntag=12, org="-", icn="526f6f74", icntag=12, iorg="-", exts="ku_sign!", sid=b"", revoked="-", seed=950 + k, light=1)
+        add(**o)
+        objs.append((o, [], []))
     for slen in range(1, 21):
         for top in (0x01, 0x7f, 0x80, 0xff):
             o = dict(kind="cert", serial=bytes([top]) + bytes([0x5a]) * (slen - 1), nb=20000, nbs=0, na=20300, nas=0, cn="414c494345", cntag=12, org="-", icn="526f6f74", icntag=12, iorg="-", exts="-", sid=b"", revoked="-", seed=900 + slen, light=1)
